@@ -447,17 +447,31 @@ static struct precalc_s {
 		 * correction has the sign of the UTC part or that is 0 */
 		const long int c = __strf_tot_corr(dur);
 
-		us = d * (int)SECS_PER_DAY + S;
-		res.neg = dur.neg || us + c < 0;
+		if (dur.d.durtyp == DT_DURBD) {
+			/* business days and seconds don't mix,
+			 * they do have the same sign though */
+			res.neg = dur.neg || d < 0 || S < 0;
+			res.d = d >= 0 ? d : -d;
+			us = S;
+		} else {
+			us = d * (int)SECS_PER_DAY + S;
+			res.neg = dur.neg || us + c < 0;
+		}
 		us = us >= 0 ? us : -us;
 		res.rS = c >= 0 ? c : -c;
 	}
 
-	if (f.has_week && f.has_biz && !f.has_year && !f.has_mon && !f.has_qtr) {
-		/* a week has 5 business days */
-		res.w = us / (5 * SECS_PER_DAY);
-		us %= 5 * SECS_PER_DAY;
-	} else if (f.has_week) {
+	if (dur.d.durtyp == DT_DURBD) {
+		if (f.has_week) {
+			/* a week has 5 business days */
+			res.w = res.d / 5;
+			res.d %= 5;
+		}
+		/* whatever is left of US are hours, minutes and seconds,
+		 * possibly more than a day's worth over the weekend */
+		f.has_week = f.has_day = 0;
+	}
+	if (f.has_week) {
 		/* week shadows days in the hierarchy */
 		res.w = us / SECS_PER_WEEK;
 		us %= SECS_PER_WEEK;
